@@ -171,6 +171,9 @@ impl Drop for MtChild {
     }
 }
 
+/// bit of `avail` that says the source has been closed
+const SRC_CLOSED: u32 = 1 << 31;
+
 pub struct MtSrc {
     id: usize,
     sh: Arc<Shared>,
@@ -185,12 +188,15 @@ impl Stream for MtSrc {
         }
         publish(k, sh, cx.waker());
         // single consumer: only this poll decrements `avail`
-        if k.avail.load(SeqCst) > 0 {
+        // one word holds the number of available items and the "closed" bit, so that "closed and
+        // nothing left" is decided by a single load and nothing can be produced afterwards
+        let a = k.avail.load(SeqCst);
+        if a & !SRC_CLOSED > 0 {
             k.avail.fetch_sub(1, SeqCst);
             let s = k.consumed.fetch_add(1, SeqCst);
             return Poll::Ready(Some((self.id, s)));
         }
-        if k.closed.load(SeqCst) && k.avail.load(SeqCst) == 0 {
+        if a & SRC_CLOSED != 0 {
             k.done.store(true, SeqCst);
             return Poll::Ready(None);
         }
@@ -608,10 +614,21 @@ pub fn round(cfg: &RoundCfg, seed: u64) -> (Vec<(String, String, String)>, Round
                 if r.chance(1, 2) {
                     // merges: make an item available (or close the source)
                     if r.chance(1, 6) {
+                        k.avail.fetch_or(SRC_CLOSED, SeqCst);
                         k.closed.store(true, SeqCst);
-                    } else if !k.closed.load(SeqCst) {
-                        k.produced.fetch_add(1, SeqCst);
-                        k.avail.fetch_add(1, SeqCst);
+                    } else {
+                        // (check and increment in one step: another waker thread may close the
+                        // source at any moment, and a closed source produces nothing more)
+                        let mut a = k.avail.load(SeqCst);
+                        while a & SRC_CLOSED == 0 {
+                            match k.avail.compare_exchange(a, a + 1, SeqCst, SeqCst) {
+                                Ok(_) => {
+                                    k.produced.fetch_add(1, SeqCst);
+                                    break;
+                                }
+                                Err(cur) => a = cur,
+                            }
+                        }
                     }
                 }
                 let burst = r.range(1, if cfg!(miri) { 4 } else { 24 });
@@ -847,6 +864,7 @@ pub fn round(cfg: &RoundCfg, seed: u64) -> (Vec<(String, String, String)>, Round
                         phase_b = true;
                         for kid in sh.kids.iter() {
                             kid.ready.store(true, SeqCst);
+                            kid.avail.fetch_or(SRC_CLOSED, SeqCst);
                             kid.closed.store(true, SeqCst);
                             let wk = kid.mailbox.lock().unwrap().last().map(|w| mt_clone(&sh, w));
                             if let Some(wk) = wk {
